@@ -60,8 +60,10 @@ def make_table(nch, idlen, resmode, serial0, icodes, models, apr, extras=False):
         for c, cid in enumerate(ids):
             for r in range(2):
                 num = {"small": 1 + r, "9999": 9998 + r, "10000": 10000 + r, "12345": 12345 + 10 * r, "negative": -5 + 5 * r}[resmode]
-                ic = ("A" if r == 1 else None) if icodes else None
-                if icodes and r == 1:
+                # icodes: False / True (every chain) / 'last-chain' / 'first-chain' (chains with and without insertion codes in one table)
+                here = bool(icodes) and (icodes is True or (icodes == "last-chain" and c == len(ids) - 1) or (icodes == "first-chain" and c == 0))
+                ic = ("A" if r == 1 else None) if here else None
+                if here and r == 1:
                     num = num - 1  # same number as the previous residue, told apart by the insertion code only
                 for k in range(apr):
                     t.append(enumio.atom(serial, ["P", "C1'"][k], "GCUA"[c % 4], cid, num, "%.3f" % (serial % 900 + 0.5), "%.3f" % (c + 0.25), "%.3f" % (r - 0.75),
@@ -83,8 +85,10 @@ def cases(tier):
     if tier != "quick":
         yield dict(big="interleaved-99987-atoms-12-blocks", fmt="mmCIF")
     for nch, idlen, resmode, serial0, icodes, models, apr in itertools.product((1, 2, 3, 62, 63), (1, 2, 4, "mix-first", "mix-last"), ("small", "9999", "10000", "12345", "negative"),
-                                                                             (1, 99990, 100000, "end99999", "end100000"), (False, True), (1, 2), (1, 2)):
+                                                                             (1, 99990, 100000, "end99999", "end100000"), (False, True, "last-chain", "first-chain"), (1, 2), (1, 2)):
       for extras in (False, True):
+        if isinstance(icodes, str) and (nch not in (2, 3) or extras or isinstance(serial0, str) or apr == 2):
+            continue
         if isinstance(serial0, str) and (nch >= 62 or extras or apr == 2):
             continue
         if nch >= 62 and (extras or models == 2 or apr == 2 or icodes or str(idlen).startswith("mix")):
